@@ -68,6 +68,8 @@ def gen_abf(r, cid, big=False):
             s.append(["s", w, bins, forces, frac])
             if t in xsteps:
                 s.append(["x", w])
+            if r.random() < 0.04:
+                s.append(["c", w])
             if output and r.random() < 0.15:
                 s.append(["o", w])
             if r.random() < p_restart and t < t_end and (mode != "oldfmt" or (t > 0 and (S0 + t) % F == 0)):
@@ -215,7 +217,7 @@ def abf_expect(case):
                 qmap[k] = nq
                 nq += 1
                 exp[k] = dict(grids(w, nshared), last_step=last[w], restarted=restarted)
-        elif ev[0] == "o":
+        elif ev[0] in ("o", "c"):
             tokens.append("q,%d" % w)
             qmap[k] = nq
             nq += 1
@@ -327,6 +329,10 @@ def check_abf(run, exe, model, cases, scratch):
                           {"kind": "abf", "case": c})
         tie_ok = True
         for k, ev in enumerate(c["events"]):
+            if out[k] is not None and ev[0] == "c" and any("err=ok" in x and "nbias=2" in x for x in out[k][1]):
+                run.violation("config:accepted-outside-the-premises", "a second ABF bias on a variable that does not exist was accepted: %s" % out[k][1],
+                              {"kind": "abf", "case": c, "event": k})
+                break
             if out[k] is not None and ev[0] in ("r", "R"):
                 loads = [x for x in out[k][1] if x.startswith("LOAD")]
                 cut = ev[0] == "R" and len(ev) > 3 and ev[3]
@@ -1053,7 +1059,7 @@ def gen_czar(r, cid, big=False):
     if r.random() < 0.5:
         for _ in range(r.randint(1, 2)):
             restart_at[str(r.randint(1, T - 2))] = [r.choice(["text", "binary", "str", "buf"]) for _ in range(n)]
-    return {"kind": "czar", "id": cid, "n": n, "nbins": nb, "freq": freq, "script": script, "hist": r.random() < 0.3, "twice": r.random() < 0.4, "restart_at": restart_at, "steps": steps, "gather_at": gather_at}
+    return {"kind": "czar", "id": cid, "n": n, "nbins": nb, "freq": freq, "script": script, "freq2": (r.choice([2, 3, 5]) if restart_at and r.random() < 0.5 else None), "hist": r.random() < 0.3, "twice": r.random() < 0.4, "restart_at": restart_at, "steps": steps, "gather_at": gather_at}
 
 
 def check_czar(run, exe, model, cases, scratch):
@@ -1162,7 +1168,7 @@ def check_czar(run, exe, model, cases, scratch):
             ls = [sum(d["osum"][i] for d in dumps) for i in range(len(g["osum"]))]
             badw = [w_ for w_, d in enumerate(dumps) if d["lcnt"] != lc or any(not close(a, b, False) for a, b in zip(d["lsum"], ls))
                     or any(x < y for x, y in zip(d["cnt"], d["lcnt"]))]
-            if badw and c["freq"] < 100:
+            if badw and (c["freq"] < 100 or c.get("freq2")):
                 run.violation("czar:snapshot-not-the-sum-of-locals", "eABF walkers, gather at step %d: snapshot counts of walker %d are %s, the local counts of "
                               "all walkers are %s (sum %s)" % (t, badw[0], dumps[badw[0]]["lcnt"], [d["ocnt"] for d in dumps], lc), {"kind": "czar", "case": c, "step": t})
                 break
